@@ -4,6 +4,7 @@ import (
 	"context"
 	"errors"
 	"fmt"
+	"runtime"
 	"runtime/debug"
 	"sort"
 	"strings"
@@ -33,7 +34,8 @@ type stats struct {
 	deniedSingle, failUser, starDeniedAndAllowedAfterSync, deniedFiltered                     bool
 	stalledDuringWrite, burstCoalesced, burstWithDelete, timeoutFired, shortStallSurvived     bool
 	exactChecked, removeWithSub, removeStarSurvives, resetSeen, staticRound, dynamicRound     bool
-	modelAmbiguous, backdated, richNames, sleptWithACL                                        bool
+	modelAmbiguous, backdated, richNames, sleptWithACL, parkedInsideFeed, removeReaddRace     bool
+	startedWhileInsideFeed                                                                    bool
 	skippedSteps, maxBulk, maxOnceLeaves                                                      int
 }
 
@@ -71,6 +73,9 @@ func (s *stats) labels() []string {
 	add(s.resetSeen, "reset")
 	add(s.staticRound, "static-round-exact")
 	add(s.dynamicRound, "round-with-concurrent-writer")
+	add(s.parkedInsideFeed, "writer-parked-inside-the-feed-callback")
+	add(s.startedWhileInsideFeed, "subscription-started-while-a-writer-was-inside-the-feed-callback")
+	add(s.removeReaddRace, "remove-racing-with-re-add-and-update")
 	add(s.backdated, "backdated-notification")
 	add(s.richNames, "names-with-common-string-prefix-or-slash")
 	add(s.sleptWithACL, "quiet-period-with-acl")
@@ -208,21 +213,27 @@ type writer struct {
 	step   int
 	alive  []*subState // subscriptions that were running when the operation began
 	n      *pb.Notification
+	cb     bool // parked inside the feed callback
 }
 
 type world struct {
-	t    *testing.T
-	sc   *Scenario
-	prop string
-	chk  map[string]bool
-	c    *cache.Cache
-	srv  *subscribe.Server
-	g    *gates
-	acl  *aclDouble
-	subs []*subState
-	step int
-	ts   int64
-	base time.Time
+	// callback gate: the harness owns the cache's change-feed callback, so a writer can be
+	// parked inside it (before or after the entry is forwarded) without any hook in the code
+	cbMu    sync.Mutex
+	cbPoint string
+	cbArm   int
+	t       *testing.T
+	sc      *Scenario
+	prop    string
+	chk     map[string]bool
+	c       *cache.Cache
+	srv     *subscribe.Server
+	g       *gates
+	acl     *aclDouble
+	subs    []*subState
+	step    int
+	ts      int64
+	base    time.Time
 
 	mu        sync.Mutex
 	fed       []fedEntry
@@ -573,6 +584,11 @@ func (w *world) stepWriter(st Step) {
 		w.st.skippedSteps++
 		return
 	}
+	if (op.Kind == "add" || op.Kind == "remove") && w.resetParked() {
+		// a parked Reset holds the cache's read lock
+		w.st.skippedSteps++
+		return
+	}
 	switch op.Kind {
 	case "add":
 		if w.live[name] {
@@ -643,9 +659,13 @@ func (w *world) stepWriter(st Step) {
 	}
 	if st.ParkFeed && op.Kind == "noti" {
 		w.g.arm("cache.feed", nil, wr.owner)
+	} else if st.ParkCB > 0 && (op.Kind == "noti" || op.Kind == "reset") {
+		// inside the change-feed callback, after its ParkCB-th entry was forwarded
+		w.armFeedGate("feed.after", st.ParkCB, wr.owner)
 	}
 	go w.doWriter(wr)
 	synctest.Wait()
+	w.disarmFeedGate()
 	if w.fail != nil {
 		panic(w.fail)
 	}
@@ -653,6 +673,10 @@ func (w *world) stepWriter(st Step) {
 		if w.g.isParked(wr.owner) {
 			w.parked = append(w.parked, wr)
 			w.busy[name] = true
+			if st.ParkCB > 0 && !st.ParkFeed {
+				w.st.parkedInsideFeed = true
+				wr.cb = true
+			}
 		} else {
 			w.failf("C08", "step %d: the cache did not finish accepting %s for %s although nothing parked it at a gate (a subscriber stalled=%v): accepting an update must never wait on a subscriber", w.step, op.Kind, name, stalled)
 			w.failf(w.prop, "step %d: writer operation %s on %s blocked", w.step, op.Kind, name)
@@ -704,6 +728,11 @@ func (w *world) stepStart(st Step) {
 	}
 	s.started = true
 	s.startStep = w.step
+	for _, wr := range w.parked {
+		if wr.cb {
+			w.st.startedWhileInsideFeed = true
+		}
+	}
 	s.stream = newMemStream(context.Background(), s.spec.User, s.i, w.now, w.curStep)
 	if !s.spec.Gated {
 		s.stream.free()
@@ -965,8 +994,10 @@ func (w *world) body() {
 	}
 	w.srv = srv
 	w.c.SetClient(func(l *ctree.Leaf) {
+		w.feedGate("feed.before")
 		w.tap(l)
 		srv.Update(l)
+		w.feedGate("feed.after")
 	})
 	for i, sp := range sc.Subs {
 		w.subs = append(w.subs, w.newSub(i, sp))
@@ -1011,6 +1042,8 @@ func (w *world) body() {
 			w.stepCancel(st)
 		case "sleep":
 			w.stepSleep(st)
+		case "rmadd":
+			w.stepRemoveReadd(st)
 		case "check":
 			synctest.Wait()
 			w.noteProgress()
@@ -1201,6 +1234,127 @@ func (w *world) stepSleep(st Step) {
 		_ = isSync
 	}
 	w.noteProgress()
+}
+
+// feedGate parks the calling writer at the cbArm-th passage of point, if armed.
+func (w *world) feedGate(point string) {
+	w.cbMu.Lock()
+	hit := false
+	if w.cbPoint == point && w.cbArm > 0 {
+		w.cbArm--
+		hit = w.cbArm == 0
+	}
+	w.cbMu.Unlock()
+	if hit {
+		w.g.handler(point, nil)
+	}
+}
+
+func (w *world) armFeedGate(point string, nth int, owner string) {
+	w.cbMu.Lock()
+	w.cbPoint, w.cbArm = point, nth
+	w.cbMu.Unlock()
+	w.g.arm(point, nil, owner)
+}
+
+func (w *world) disarmFeedGate() {
+	w.cbMu.Lock()
+	w.cbPoint, w.cbArm = "", 0
+	w.cbMu.Unlock()
+}
+
+// resetParked reports whether a Reset is parked inside the feed callback: it holds the
+// cache's read lock, so nothing that needs the write lock (Add, Remove) may be started.
+func (w *world) resetParked() bool {
+	for _, wr := range w.parked {
+		if wr.op.Kind == "reset" {
+			return true
+		}
+	}
+	return false
+}
+
+// stepRemoveReadd removes a target while, on another goroutine, the same name is added
+// again and updated. The remover is parked inside the feed callback of its whole-target
+// delete, before the announcement is forwarded; the re-adder is started while it is parked
+// (it proceeds only if Remove does not hold the cache lock across the announcement), the
+// harness yields the processor a number of times and releases the remover. How far the
+// re-adder gets during the yields only decides which interleaving is exercised; the
+// oracles (convergence of every running subscriber with the cache's final content, clean
+// end of single-target subscribers) are evaluated at the next quiescent points.
+func (w *world) stepRemoveReadd(st Step) {
+	op := st.W
+	if op == nil || op.Kind != "noti" {
+		w.st.skippedSteps++
+		return
+	}
+	name := targetName(op.T % w.sc.Targets)
+	if !w.live[name] || w.busy[name] || len(w.parked) > 0 {
+		w.st.skippedSteps++
+		return
+	}
+	for _, s := range w.subs {
+		if s.started && !s.ended && s.regStep < 0 {
+			// a subscription caught before its registration: not scheduled (see the remove step)
+			w.st.skippedSteps++
+			return
+		}
+		if s.started && !s.ended {
+			s.writesDuring = true
+		}
+	}
+	rm := &writer{owner: fmt.Sprintf("w:%d", w.step), target: name, op: &WOp{Kind: "remove", T: op.T}, step: w.step}
+	for _, s := range w.subs {
+		if s.started && !s.ended {
+			rm.alive = append(rm.alive, s)
+		}
+		if s.started && s.syncStep < 0 {
+			for k := range s.snapshot {
+				if gn.Unkey(k)[0] == name {
+					s.excused[k] = true
+				}
+			}
+		}
+	}
+	w.armFeedGate("feed.before", 1, rm.owner)
+	go w.doWriter(rm)
+	synctest.Wait()
+	if w.fail != nil {
+		panic(w.fail)
+	}
+	if rm.done || !w.g.isParked(rm.owner) {
+		panic(&failure{"INFRA", "Remove did not reach the feed callback"})
+	}
+	add := &writer{owner: rm.owner + "a", target: name, op: &WOp{Kind: "add", T: op.T}, step: w.step}
+	upd := &writer{owner: rm.owner + "u", target: name, op: op, step: w.step}
+	w.live[name] = true // for buildNoti's bookkeeping only; set again below
+	upd.n = w.buildNoti(op)
+	done := make(chan struct{})
+	go func() {
+		defer close(done)
+		w.doWriter(add)
+		w.doWriter(upd)
+	}()
+	for i := 0; i < 500; i++ {
+		runtime.Gosched()
+	}
+	w.disarmFeedGate()
+	w.g.release(rm.owner)
+	synctest.Wait()
+	if w.fail != nil {
+		panic(w.fail)
+	}
+	select {
+	case <-done:
+	default:
+		w.failf(w.prop, "step %d: Remove(%s) racing with Add(%s)+update: the operations did not all return", w.step, name, name)
+	}
+	if !rm.done {
+		w.failf(w.prop, "step %d: Remove(%s) did not return", w.step, name)
+	}
+	w.afterWriter(rm)
+	w.afterWriter(add)
+	w.st.removeReaddRace = true
 }
 
 func hasRich(es []gn.Elem) bool {
